@@ -382,16 +382,16 @@ public:
 
 			int shift = nlz(b.block(n - 1));
 			einteger normalized_a;
-			normalized_a.setblock(m, static_cast<BlockType>((a.block(m - 1) >> (bitsInBlock - shift))));
+			normalized_a.setblock(m, static_cast<BlockType>(shift ? (a.block(m - 1) >> (bitsInBlock - shift)) : 0));
 			for (unsigned i = m - 1; i > 0; --i) {
-				normalized_a.setblock(i, static_cast<BlockType>((a.block(i) << shift) | (a.block(i - 1) >> (bitsInBlock - shift))));
+				normalized_a.setblock(i, static_cast<BlockType>((a.block(i) << shift) | (shift ? (a.block(i - 1) >> (bitsInBlock - shift)) : 0)));
 			}
 			normalized_a.setblock(0, static_cast<BlockType>(a.block(0) << shift));
 			// normalize b
 			einteger normalized_b;
 			unsigned n_minus_1 = n - 1;
 			for (unsigned i = n_minus_1; i > 0; --i) {
-				normalized_b.setblock(i, static_cast<BlockType>((b.block(i) << shift) | (b.block(i - 1) >> (bitsInBlock - shift))));
+				normalized_b.setblock(i, static_cast<BlockType>((b.block(i) << shift) | (shift ? (b.block(i - 1) >> (bitsInBlock - shift)) : 0)));
 			}
 			normalized_b.setblock(0, static_cast<BlockType>(b.block(0) << shift));
 
@@ -409,17 +409,18 @@ public:
 				while (qhat >= BASE || qhat * v_nminus2 > BASE * rhat + normalized_a.block(j + n - 2)) {
 					--qhat;
 					rhat += divisor;
-					if (rhat < BASE) continue;
+					if (rhat >= BASE) break;
 				}
-				std::uint64_t borrow{ 0 };
-				std::uint64_t diff{ 0 };
+				// multiply and subtract: the running difference is signed, its arithmetic right shift is the borrow
+				std::int64_t borrow{ 0 };
+				std::int64_t diff{ 0 };
 				for (unsigned i = 0; i < n; ++i) {
 					std::uint64_t p = qhat * normalized_b.block(i);
-					diff = normalized_a.block(i + j) - static_cast<BlockType>(p) - borrow;
+					diff = static_cast<std::int64_t>(normalized_a.block(i + j)) - borrow - static_cast<std::int64_t>(static_cast<BlockType>(p));
 					normalized_a.setblock(i + j, static_cast<BlockType>(diff));
-					borrow = (p >> bitsInBlock) - (diff >> bitsInBlock);
+					borrow = static_cast<std::int64_t>(p >> bitsInBlock) - (diff >> bitsInBlock);
 				}
-				std::int64_t signedBorrow = static_cast<int64_t>(normalized_a.block(j + n) - borrow);
+				std::int64_t signedBorrow = static_cast<std::int64_t>(normalized_a.block(j + n)) - borrow;
 				normalized_a.setblock(j + n, static_cast<BlockType>(signedBorrow));
 
 				//std::cout << "   updated a : " << normalized_a.showLimbs() << " : " << normalized_a.showLimbValues() << '\n';
@@ -432,7 +433,7 @@ public:
 					for (unsigned i = 0; i < n; ++i) {
 						carry += static_cast<std::uint64_t>(normalized_a.block(i + j)) + static_cast<std::uint64_t>(normalized_b.block(i));
 						normalized_a.setblock(i + j, static_cast<BlockType>(carry));
-						carry >>= 32;
+						carry >>= bitsInBlock;
 					}
 					BlockType rectified = static_cast<BlockType>(normalized_a.block(j + n) + carry);
 					normalized_a.setblock(j + n, rectified);
@@ -443,7 +444,7 @@ public:
 			// remainder needs to be normalized
 			for (unsigned i = 0; i < n - 1; ++i) {
 				std::uint64_t remainder = static_cast<std::uint64_t>(normalized_a.block(i) >> shift);
-				remainder |= (static_cast<std::uint64_t>(normalized_a.block(i + 1)) << (32 - shift));
+				remainder |= (shift ? (static_cast<std::uint64_t>(normalized_a.block(i + 1)) << (bitsInBlock - shift)) : 0);
 				r.setblock(i, static_cast<BlockType>(remainder));
 			}
 			r.setblock(n - 1, static_cast<BlockType>(normalized_a.block(n - 1) >> shift));
